@@ -17,6 +17,10 @@ var commonAssumptions = []string{
 }
 
 var propMeta = map[string]PropMeta{
+	"C19": {
+		NotCovered: "Multi-valued static headers are covered per key (the outer loop visits every key), not per value; the before-request function may itself modify the request; answers to server-issued requests are sent with a fresh 30 s context, not with the handshake's context values (the property asks for the handshake's values for background streams: not decided, see DESIGN.md).",
+		Assumptions: append([]string{"http.NewRequestWithContext returns a request for the given URL with a non-nil URL and header; the user's HTTPBeforeRequestFunc is counted once per invocation (ghost instrumentation)", "transport configuration fields are written only by the constructors and option functions listed as init"}, commonAssumptions...),
+	},
 	"C03": {
 		NotCovered: "The MCP schema of result payloads beyond the envelope and 'list results are arrays'; parameter-shape contracts for prompts/get, resources/read, subscribe, completion (same pattern as tools/call, not yet written); the legacy SSE and stdio wrappers' envelopes; that a 2xx body is non-empty (only the status is modelled).",
 		Assumptions: append([]string{"net/http: the first WriteHeader/http.Error fixes the status, a Write without it sends 200; user handlers and middlewares return either a message or an error"}, commonAssumptions...),
